@@ -179,7 +179,8 @@ class ColumnBackend(PolarsSchemaBackend):
         )
 
         try:
-            return coerce_fn(check_obj)
+            # only the column(s) selected by this schema component are coerced
+            return coerce_fn(PolarsData(check_obj, schema.selector))
         except ParserError as exc:
             raise SchemaError(
                 schema=schema,
